@@ -71,6 +71,7 @@ def case_strategy(draw, big=False):
         motion.append({'kind': kind, 'key': float(k0 + k) + draw(st.sampled_from([0.0, 0.5])), 'v': v, 'tag': None})
     case['motion'] = motion
     case['scale'] = gen.r6(draw(gen.logf(0.01, 100))) if draw(st.integers(0, 2)) == 0 else None
+    case['scale_split'] = gen.r6(draw(gen.logf(0.1, 10))) if (case['scale'] is not None and draw(st.booleans())) else None
     pt = []
     if draw(st.integers(0, 2)) == 0:
         build.assign_tags(case)
@@ -162,6 +163,8 @@ def check(case):
     if scale is not None:
         labels.append('scale')
         nt = True
+        if case.get('scale_split'):
+            labels.append('scale-in-two-steps')
     if pertag:
         labels.append('per-tag')
         nt = True
@@ -190,6 +193,10 @@ def check(case):
     s = scale or 1.0
     if scale is not None:
         mv['scales'] = [{'f': scale, 'tag': None}]
+        if case.get('scale_split'):
+            # the same factor as the product of two scale options
+            s1_ = case['scale_split']
+            mv['scales'] = [{'f': s1_, 'tag': None}, {'f': scale / s1_, 'tag': None}]
         mv['f'] = base['f'] / scale
         for o in mv['objs']:
             if o['type'] == 'wire' and o.get('taper'):
